@@ -131,22 +131,24 @@ var shapes = []shape{
 	{"aliasDiamond", []string{"D1", "D2", "D3"}, []edge{{"R", "p", "D1", false}, {"R", "q", "D2", false}, {"D1", "n", "D3", false}, {"D2", "n", "D3", true}}},
 	{"back", []string{"D1"}, []edge{{"R", "p", "D1", false}, {"D1", "n", "E", false}}},
 	{"back2", []string{"D1", "D2"}, []edge{{"R", "p", "D1", false}, {"D1", "n", "D2", false}, {"D2", "n", "E", false}, {"D2", "m", "R", false}}},
+	{"embInDoc", []string{"D1", "D2"}, []edge{{"R", "p", "D1", false}, {"D1", "n", "D2", false}, {"D2", "n", "F", false}}},
+	{"embInDocBack", []string{"D1", "D2"}, []edge{{"R", "p", "D1", false}, {"D1", "n", "D2", false}, {"D2", "n", "F", false}, {"D1", "m", "F", false}}},
 	{"twice", []string{"D1"}, []edge{{"R", "p", "D1", false}, {"R", "q", "D1", false}}},
 	{"fan", []string{"D1", "D2"}, []edge{{"R", "p", "D1", false}, {"R", "q", "D2", false}, {"D1", "n", "D2", false}, {"D1", "m", "D2", false}}},
 }
 
-var docNum = map[string]int{"R": 0, "D1": 1, "D2": 2, "D3": 3, "E": 4}
+var docNum = map[string]int{"R": 0, "D1": 1, "D2": 2, "D3": 3, "E": 4, "F": 5}
 
 // MultiDoc enumerates universes of loader documents in the named shapes, each
 // edge in every fragment form, documents with $id absent / equal to the
 // retrieval URI / a different canonical URI (alias).
 func MultiDoc(thorough bool, yield func(u *Universe, desc string, alias bool)) {
-	retr := map[string]string{"R": "http://h/root.json", "D1": "http://h/d1.json", "D2": "http://h/sub/d2.json", "D3": "http://h/d3.json", "E": "http://h/emb.json"}
+	retr := map[string]string{"R": "http://h/root.json", "D1": "http://h/d1.json", "D2": "http://h/sub/d2.json", "D3": "http://h/d3.json", "E": "http://h/emb.json", "F": "http://h/d1emb.json"} // F is a resource embedded in D1
 	canon := map[string]string{"D1": "http://h/canon/d1.json", "D2": "http://h/canon/d2.json", "D3": "urn:ex:d3"}
 	relFrom := map[string]map[string]string{ // relative spellings of retrieval URIs, from each document
-		"R":  {"D1": "d1.json", "D2": "sub/d2.json", "D3": "./d3.json", "E": "emb.json", "R": "root.json"},
-		"D1": {"D1": "d1.json", "D2": "sub/d2.json", "D3": "d3.json", "E": "emb.json", "R": "root.json"},
-		"D2": {"D1": "../d1.json", "D2": "d2.json", "D3": "../d3.json", "E": "../emb.json", "R": "../root.json"},
+		"R":  {"D1": "d1.json", "D2": "sub/d2.json", "D3": "./d3.json", "E": "emb.json", "R": "root.json", "F": "d1emb.json"},
+		"D1": {"D1": "d1.json", "D2": "sub/d2.json", "D3": "d3.json", "E": "emb.json", "R": "root.json", "F": "d1emb.json"},
+		"D2": {"D1": "../d1.json", "D2": "d2.json", "D3": "../d3.json", "E": "../emb.json", "R": "../root.json", "F": "../d1emb.json"},
 	}
 	for _, sh := range shapes {
 		ne := len(sh.edges)
@@ -237,6 +239,9 @@ func MultiDoc(thorough bool, yield func(u *Universe, desc string, alias bool)) {
 						if d == "R" {
 							defs += `,"e":{"$id":"http://h/emb.json","type":"object","properties":{"z":{"const":40}},"$defs":{"t":{"const":41},"a":{"$anchor":"k","const":42}}}`
 						}
+						if d == "D1" {
+							defs += `,"e":{"$id":"http://h/d1emb.json","type":"object","properties":{"z":{"const":50}},"$defs":{"t":{"const":51},"a":{"$anchor":"k","const":52}}}`
+						}
 						parts = append(parts, `"$defs":{`+defs+`}`)
 						return "{" + strings.Join(parts, ",") + "}"
 					}
@@ -252,7 +257,7 @@ func MultiDoc(thorough bool, yield func(u *Universe, desc string, alias bool)) {
 						docs[retr[d]] = mk(d, id)
 					}
 					u := &Universe{Root: mk("R", ""), Base: retr["R"], Docs: docs, Kind: sh.name}
-					leaves := []string{`{}`, `1`, `11`, `12`, `21`, `22`, `31`, `32`, `41`, `42`, `{"z":40}`, `{"z":1}`}
+					leaves := []string{`{}`, `1`, `11`, `12`, `21`, `22`, `31`, `32`, `41`, `42`, `51`, `52`, `{"z":40}`, `{"z":50}`, `{"z":1}`}
 					for _, l := range leaves {
 						for _, p1 := range []string{"p", "q"} {
 							u.Insts = append(u.Insts, fmt.Sprintf(`{%q:%s}`, p1, l))
